@@ -296,6 +296,15 @@ class Scalar(AbstractValueWithQuantityObject):
         v2 = other.GetValue(self.unit)
         return v1 < v2
 
+    def __le__(self, other: Any) -> bool:
+        return not other < self
+
+    def __gt__(self, other: Any) -> bool:
+        return other < self
+
+    def __ge__(self, other: Any) -> bool:
+        return not self < other
+
     # right ----------------------------------------------------------------------------------------
     def __rtruediv__(self, other: Any) -> "Scalar":
         return self._DoOperation(other, self, "Divide", lambda a, b: a / b)
